@@ -127,8 +127,13 @@ def main():
             txt, fields = gen(run.rng)
             if run.rng.random() < 0.2:
                 txt = " " + txt + "\r\n"
+            # polling firmwares repeat themselves: a quarter of the reports is an earlier report of this sequence, verbatim
+            if msgs and run.rng.random() < 0.25:
+                txt, fields = run.rng.choice(msgs)
             msgs.append((txt, fields))
         seqs.append(msgs)
+    seqs.insert(0, [("T:200.0 /210.0 B:55.0 /60.0", [("T", ["200.0"]), ("B", ["55.0"])]), ("ok T:205.0 /210.0 B:57.0 /60.0", [("T", ["205.0"]), ("B", ["57.0"])]),
+                    ("T:200.0 /210.0 B:55.0 /60.0", [("T", ["200.0"]), ("B", ["55.0"])])])
     seqs.insert(0, [("ok T:210.5 /210.0 B:60.1 /60.0", [("T", ["210.5"]), ("B", ["60.1"])]), ("X:0.00 Y:1.0 Z:2 E:0 Count X:-37 Y:80 Z:160", [("X", ["0.00"]), ("Y", ["1.0"]), ("Z", ["2"]), ("E", ["0"])]),
                     ("<Idle|MPos:0.000,-4.000,1.5|FS:0,0|WPos:-4.000,0,0>", [("MPos", ["0.000", "-4.000", "1.5"]), ("FS", ["0", "0"])]),
                     ("<Run|MPos:5.000,5.000,5.000|FS:500,8000>", [("MPos", ["5.000", "5.000", "5.000"]), ("FS", ["500", "8000"])])])
